@@ -36,6 +36,10 @@ def strip(x):
     return {k: v for k, v in x.items() if not k.startswith("_")}
 
 
+# one dictionary object handed to many fit() calls with different learning rates, as a user's script would
+SHARED_OPT_ARGS = {"momentum": 0.0}
+
+
 def random_numeric_run(rng, tier):
     typ = rng.choice(["positive", "complex", "density"])
     N = rng.randint(1, 6)
@@ -56,7 +60,8 @@ def random_numeric_run(rng, tier):
     if rng.random() < 0.3:
         plan.add((rng.choice(["BS", "BE", "EE"]), rng.randint(1, 3), rng.choice([0, 1, -1]), 1))
         plan = {(a, e, (b if a in ("BS", "BE") and b >= 0 else (-1 if a == "EE" else 0)), c) for a, e, b, c in plan}
-    real = trainrun.real_run(cfg, plan=plan, seed=rng.randrange(10 ** 6), k=k, lr=lr, numeric_hook=True)
+    real = trainrun.real_run(cfg, plan=plan, seed=rng.randrange(10 ** 6), k=k, lr=lr, numeric_hook=True,
+                             opt_args=SHARED_OPT_ARGS if rng.random() < 0.7 else None)
     return cfg, real, dict(k=k, lr0=int(round(lr * 1e6)), plan=sorted(plan))
 
 
@@ -163,9 +168,14 @@ def run(tier, seed):
                 st.reinitialize_parameters()
             st.stop_training = False
             cfg2 = dict(cfg, startEp=cfg["epochs"] + 1, epochs=cfg["epochs"] + 2, cbs=[{"t": "rec"}])
-            lr2 = meta["lr0"] / 1e6
-            real2 = trainrun.real_run(cfg2, seed=rng.randrange(10 ** 6), k=meta["k"], lr=lr2, numeric_hook=True, nn_state=st)
-            runs.append((cfg2, real2, dict(meta, plan=[], second_fit=how)))
+            lr2 = 0.256 if cfg["sched"] else rng.choice([x for x in (0.512, 0.1, 0.001) if int(round(x * 1e6)) != meta["lr0"]])
+            real2 = trainrun.real_run(cfg2, seed=rng.randrange(10 ** 6), k=meta["k"], lr=lr2, numeric_hook=True, nn_state=st,
+                                      opt_args=SHARED_OPT_ARGS)
+            runs.append((cfg2, real2, dict(meta, lr0=int(round(lr2 * 1e6)), plan=[], second_fit=how)))
+        if not real.get("args_same", True) or (i % 4 == 0 and real["error"] is None and not real2.get("args_same", True)):
+            chk.violation("numeric:caller-arguments-modified", dict(cfg=cfg, optimizer_args=repr(SHARED_OPT_ARGS)))
+            SHARED_OPT_ARGS.clear()
+            SHARED_OPT_ARGS["momentum"] = 0.0
 
     def attach(lines_meta):
         pass
